@@ -37,6 +37,8 @@ fn work_dir(tag: &str) -> std::path::PathBuf {
 
 /// Transport::send(&Message) / AsyncTransport::send(Message) on the stub and file transports: what they record must be the message's own
 /// envelope and formatted octets.  Output: "ok" or what differs.
+// (every delivery below goes through a clone of the transport handle - the usual shape when a transport is moved into tasks -
+// while logs and files are read back through the original handle)
 pub fn send_msg(subject: &str, body: &str, keep_bcc: &str) -> String {
     let (Ok(subj), Ok(body)) = (String::from_utf8(unhex(subject)), String::from_utf8(unhex(body))) else { return "invalid-utf8".into() };
     let mut b = lettre::Message::builder().from("Fr Om <a@x.org>".parse().unwrap()).to("b@y.org".parse().unwrap()).cc("c@z.org".parse().unwrap())
@@ -46,20 +48,20 @@ pub fn send_msg(subject: &str, body: &str, keep_bcc: &str) -> String {
     let (env, bytes) = (m.envelope().clone(), m.formatted());
     let mut bad = vec![];
     let s = StubTransport::new_ok();
-    if s.send(&m).is_err() { bad.push("stub send failed".to_string()); }
+    if s.clone().send(&m).is_err() { bad.push("stub send failed".to_string()); }
     let log = s.messages();
     if log.len() != 1 || log[0].0 != env || log[0].1.as_bytes() != &bytes[..] { bad.push(format!("stub recorded {} message(s) / another envelope or other octets", log.len())); }
     let a = AsyncStubTransport::new_ok();
-    let alog = rt().block_on(async { let _ = a.send(m.clone()).await; a.messages().await });
+    let alog = rt().block_on(async { let _ = a.clone().send(m.clone()).await; a.messages().await });
     if alog.len() != 1 || alog[0].0 != env || alog[0].1.as_bytes() != &bytes[..] { bad.push("async stub recorded another envelope or other octets".to_string()); }
     let d = work_dir("sendmsg");
     let ft = FileTransport::with_envelope(&d);
-    match ft.send(&m) {
+    match ft.clone().send(&m) {
         Ok(id) => match ft.read(&id) { Ok((e2, b2)) => { if e2 != env || b2 != bytes { bad.push("file transport stored another envelope or other octets".to_string()); } } Err(e) => bad.push(format!("file read: {e}")) },
         Err(e) => bad.push(format!("file send: {e}")),
     }
     let aft = AsyncFileTransport::<Tokio1Executor>::with_envelope(&d);
-    let r = rt().block_on(async { match aft.send(m.clone()).await { Ok(id) => aft.read(&id).await.map_err(|e| e.to_string()), Err(e) => Err(e.to_string()) } });
+    let r = rt().block_on(async { match aft.clone().send(m.clone()).await { Ok(id) => aft.read(&id).await.map_err(|e| e.to_string()), Err(e) => Err(e.to_string()) } });
     match r { Ok((e2, b2)) => { if e2 != env || b2 != bytes { bad.push("async file transport stored another envelope or other octets".to_string()); } } Err(e) => bad.push(format!("async file: {e}")) }
     let _ = std::fs::remove_dir_all(&d);
     if bad.is_empty() { format!("ok\t{}\t{}", env_s(&env), bytes.len()) } else { format!("bad\t{}", bad.join("; ")) }
@@ -84,13 +86,13 @@ pub fn file(from: &str, tos: &str, msg: &str) -> String {
     let d = work_dir("file");
     let t = FileTransport::with_envelope(&d);
     let out = (|| -> Result<String, String> {
-        let id = t.send_raw(&env, &m).map_err(|e| format!("send: {e}"))?;
+        let id = t.clone().send_raw(&env, &m).map_err(|e| format!("send: {e}"))?;
         let eml = std::fs::read(d.join(format!("{id}.eml"))).map_err(|e| format!("eml: {e}"))?;
         let json = std::fs::read(d.join(format!("{id}.json"))).map_err(|e| format!("json: {e}"))?;
         let (renv, rbytes) = t.read(&id).map_err(|e| format!("read: {e}"))?;
         let at = AsyncFileTransport::<Tokio1Executor>::with_envelope(&d);
         let (aid, aread) = rt().block_on(async {
-            let aid = at.send_raw(&env, &m).await.map_err(|e| format!("asend: {e}"))?;
+            let aid = at.clone().send_raw(&env, &m).await.map_err(|e| format!("asend: {e}"))?;
             let r = at.read(&aid).await.map_err(|e| format!("aread: {e}"))?;
             Ok::<_, String>((aid, r))
         })?;
